@@ -98,6 +98,12 @@ def stop_stream(ctx, bdir, rng):
             ops.append("x %s %s %s %s %s" % (h(), rng.choice(["-", lst()]), rng.choice(["-", lst()]), lst(), lst()))
         else:
             ops.append("dx %s %s %s %s %s" % (h(), rng.choice(["-", lst()]), rng.choice(["-", lst()]), lst(), lst()))
+    # nlopt_optimize_limited: the limits in force during the nested call and the limits restored afterwards
+    for sme in (0, -1, 1, 7, 100):
+        for me in (0, -3, 1, 5, 7, 8, 1000):
+            for smt in (0.0, -1.0, 2.5, 1e9):
+                for mt in (0.0, -2.0, 1.0, 2.5, 3.0, 1e12):
+                    ops.append("limited %d %d %s %s" % (sme, me, hexd(smt), hexd(mt)))
     text = "\n".join(ops) + "\n"
     rc, out = sh([exe, "stop"], input=text.encode())
     impl = out.split("\n")
